@@ -557,3 +557,156 @@ Proof.
     destruct (awB_lift ops Hv r) as [_ H]. rewrite (xrun_fst aw (Z * Z) aw_init aw_write aw_merge aw_hop) in H.
     unfold aw_wpre. cbn [snd]. specialize (H elem r). pose proof (log_len_le ops r). lia.
 Qed.
+
+(* ---------------------------------------------------------------- where associativity does hold *)
+(* x is dominated by y: absent, or the same entry up to equivalence, or a strictly smaller clock
+   (whatever the polarities). Entries produced by updates of one element that are ordered by
+   happens-before are related this way; concurrent updates give incomparable clocks. *)
+Definition vc_lt (a b : vclock) : Prop := (forall k, gc_getd k a <= gc_getd k b) /\ vc_some_lt a b.
+
+Definition ent_le (x y : option entry) : Prop :=
+  ent_eqv x y \/ x = None \/ (exists cx cy, clock_of x = cx /\ clock_of y = cy /\ x <> None /\ y <> None /\ vc_lt cx cy).
+
+Lemma vc_lt_LT : forall a b, vc_lt a b -> is_LT (vc_compare a b) = true /\ is_LT (vc_compare b a) = false.
+Proof.
+  intros a b [Hle Hlt]. split.
+  - apply is_LT_spec. split; [exact Hlt|]. intros [k Hk]. specialize (Hle k). lia.
+  - destruct (is_LT (vc_compare b a)) eqn:E; [|reflexivity]. apply is_LT_spec in E as [[k Hk] _].
+    specialize (Hle k). lia.
+Qed.
+
+Lemma vc_lt_merge : forall a b, gc_wf a -> gc_wf b -> vc_lt a b -> gc_eqv (gc_merge a b) b /\ gc_eqv (gc_merge b a) b.
+Proof.
+  intros a b Ha Hb [Hle _]. split; intros k; rewrite gc_merge_getd by (try apply Ha; try apply Hb; assumption);
+    specialize (Hle k); lia.
+Qed.
+
+Lemma ment_le : forall x y, ewf x -> ewf y -> ent_le x y -> ent_eqv (ment x y) y /\ ent_eqv (ment y x) y.
+Proof.
+  intros x y Hx Hy [He|[->|(cx & cy & <- & <- & Hnx & Hny & Hlt)]].
+  - split.
+    + eapply ent_eqv_trans; [apply (ment_eqv x y y y); auto using ent_eqv_refl|now apply ment_idem].
+    + eapply ent_eqv_trans; [apply (ment_eqv y y x y); auto using ent_eqv_refl|now apply ment_idem].
+  - split; destruct y as [[c|c]|]; cbn; auto using gc_eqv_refl.
+  - destruct x as [[a|a]|]; [| |congruence]; destruct y as [[b|b]|]; try congruence; cbn [clock_of ewf] in *;
+      destruct (vc_lt_LT _ _ Hlt) as [L1 L2]; destruct (vc_lt_merge _ _ Hx Hy Hlt) as [M1 M2]; cbn [ment];
+      rewrite ?L1, ?L2; cbn [ent_eqv]; auto using gc_eqv_refl.
+Qed.
+
+Lemma vc_lt_eqv : forall a a' b b', gc_eqv a a' -> gc_eqv b b' -> vc_lt a b -> vc_lt a' b'.
+Proof.
+  intros a a' b b' Ea Eb [Hle Hlt]. split.
+  - intros k. rewrite <- (Ea k), <- (Eb k). apply Hle.
+  - now apply (some_lt_eqv a a' b b' Ea Eb).
+Qed.
+
+Lemma vc_lt_trans : forall a b c, vc_lt a b -> vc_lt b c -> vc_lt a c.
+Proof.
+  intros a b c [H1 [k Hk]] [H2 _]. split.
+  - intros j. specialize (H1 j). specialize (H2 j). lia.
+  - exists k. specialize (H2 k). lia.
+Qed.
+
+Lemma ent_eqv_clock : forall y y', ent_eqv y y' -> y <> None -> y' <> None /\ gc_eqv (clock_of y) (clock_of y').
+Proof.
+  intros [[b|b]|] [[b'|b']|] E Hn; cbn in *; try contradiction; try congruence; split; auto; discriminate.
+Qed.
+
+Lemma ent_le_eqv_r : forall x y y', ent_le x y -> ent_eqv y y' -> ent_le x y'.
+Proof.
+  intros x y y' [He|[->|(cx & cy & <- & <- & Hnx & Hny & Hlt)]] E.
+  - left. eapply ent_eqv_trans; eauto.
+  - right. now left.
+  - right. right. destruct (ent_eqv_clock y y' E Hny) as [Hny' Ec].
+    exists (clock_of x), (clock_of y'). repeat split; auto.
+    + destruct Hlt as [Hle _]. intros k. rewrite <- (Ec k). apply Hle.
+    + destruct Hlt as [_ Hs]. now apply (some_lt_eqv (clock_of x) (clock_of x) (clock_of y) (clock_of y') (gc_eqv_refl _) Ec).
+Qed.
+
+Lemma ent_le_eqv_l : forall x x' y, ent_le x y -> ent_eqv x x' -> ent_le x' y.
+Proof.
+  intros x x' y [He|[->|(cx & cy & <- & <- & Hnx & Hny & Hlt)]] E.
+  - left. eapply ent_eqv_trans; [apply ent_eqv_sym, E|exact He].
+  - destruct x' as [[a|a]|]; cbn in E; try contradiction. right. now left.
+  - right. right. destruct (ent_eqv_clock x x' E Hnx) as [Hnx' Ec].
+    exists (clock_of x'), (clock_of y). split; [reflexivity|]. split; [reflexivity|]. split; [exact Hnx'|]. split; [exact Hny|].
+    apply (vc_lt_eqv (clock_of x) (clock_of x') (clock_of y) (clock_of y)); auto using gc_eqv_refl.
+Qed.
+
+Lemma ent_le_trans : forall x y z, ent_le x y -> ent_le y z -> ent_le x z.
+Proof.
+  intros x y z Hxy Hyz.
+  destruct Hxy as [He|[->|(cx & cy & <- & <- & Hnx & Hny & Hlt)]]; [|right; now left|].
+  - (* x ~ y *) apply (ent_le_eqv_l y x z Hyz). now apply ent_eqv_sym.
+  - (* x < y *)
+    destruct Hyz as [He'|[->|(cy & cz & <- & <- & Hny' & Hnz & Hlt')]]; [|congruence|].
+    + apply (ent_le_eqv_r x y z); [|exact He']. right. right. exists (clock_of x), (clock_of y).
+      split; [reflexivity|]. split; [reflexivity|]. split; [exact Hnx|]. split; [exact Hny|exact Hlt].
+    + right. right. exists (clock_of x), (clock_of z).
+      split; [reflexivity|]. split; [reflexivity|]. split; [exact Hnx|]. split; [exact Hnz|].
+      eapply vc_lt_trans; eauto.
+Qed.
+
+Definition comparable (x y : option entry) : Prop := ent_le x y \/ ent_le y x.
+
+Lemma ment_assoc_chain : forall x y z, ewf x -> ewf y -> ewf z ->
+  comparable x y -> comparable y z -> comparable x z ->
+  ent_eqv (ment (ment x y) z) (ment x (ment y z)).
+Proof.
+  intros x y z Hx Hy Hz Cxy Cyz Cxz.
+  assert (Hxy := ment_wf x y Hx Hy). assert (Hyz := ment_wf y z Hy Hz).
+  (* the merge of two comparable entries is (equivalent to) the larger one *)
+  assert (R : forall a b c, ewf a -> ewf b -> ewf c -> ent_le a b ->
+              (ent_le b c -> ent_eqv (ment (ment a b) c) c /\ ent_eqv (ment (ment b a) c) c /\
+                             ent_eqv (ment a (ment b c)) c /\ ent_eqv (ment a (ment c b)) c) /\
+              (ent_le c b -> ent_eqv (ment (ment a b) c) b /\ ent_eqv (ment (ment b a) c) b /\
+                             ent_eqv (ment c (ment a b)) b /\ ent_eqv (ment c (ment b a)) b)).
+  { intros a b c Ha Hb Hc Hab. destruct (ment_le a b Ha Hb Hab) as [E1 E2].
+    pose proof (ment_wf a b Ha Hb) as Wab. pose proof (ment_wf b a Hb Ha) as Wba. split.
+    - intros Hbc. destruct (ment_le b c Hb Hc Hbc) as [F1 F2].
+      pose proof (ent_le_trans a b c Hab Hbc) as Hac. destruct (ment_le a c Ha Hc Hac) as [G1 G2].
+      pose proof (ment_wf b c Hb Hc) as Wbc. pose proof (ment_wf c b Hc Hb) as Wcb.
+      repeat split.
+      + eapply ent_eqv_trans; [apply (ment_eqv (ment a b) b c c); auto using ent_eqv_refl|exact F1].
+      + eapply ent_eqv_trans; [apply (ment_eqv (ment b a) b c c); auto using ent_eqv_refl|exact F1].
+      + eapply ent_eqv_trans; [apply (ment_eqv a a (ment b c) c); auto using ent_eqv_refl|exact G1].
+      + eapply ent_eqv_trans; [apply (ment_eqv a a (ment c b) c); auto using ent_eqv_refl|exact G1].
+    - intros Hcb. destruct (ment_le c b Hc Hb Hcb) as [F1 F2]. repeat split.
+      + eapply ent_eqv_trans; [apply (ment_eqv (ment a b) b c c); auto using ent_eqv_refl|exact F2].
+      + eapply ent_eqv_trans; [apply (ment_eqv (ment b a) b c c); auto using ent_eqv_refl|exact F2].
+      + eapply ent_eqv_trans; [apply (ment_eqv c c (ment a b) b); auto using ent_eqv_refl|exact F1].
+      + eapply ent_eqv_trans; [apply (ment_eqv c c (ment b a) b); auto using ent_eqv_refl|exact F1]. }
+  destruct Cxy as [Lxy|Lyx]; destruct Cyz as [Lyz|Lzy].
+  - (* x <= y <= z *)
+    destruct (R x y z Hx Hy Hz Lxy) as [R1 _]. destruct (R1 Lyz) as (A1 & _ & A3 & _).
+    eapply ent_eqv_trans; [exact A1|apply ent_eqv_sym, A3].
+  - (* x <= y, z <= y *)
+    destruct (R x y z Hx Hy Hz Lxy) as [_ R2]. destruct (R2 Lzy) as (A1 & _).
+    eapply ent_eqv_trans; [exact A1|]. apply ent_eqv_sym.
+    destruct (ment_le z y Hz Hy Lzy) as [_ F2]. destruct (ment_le x y Hx Hy Lxy) as [E1 _].
+    eapply ent_eqv_trans; [apply (ment_eqv x x (ment y z) y); auto using ent_eqv_refl|exact E1].
+  - (* y <= x, y <= z: x and z comparable *)
+    destruct (ment_le y x Hy Hx Lyx) as [_ E2]. destruct (ment_le y z Hy Hz Lyz) as [F1 _].
+    eapply ent_eqv_trans; [apply (ment_eqv (ment x y) x z z); auto using ent_eqv_refl|].
+    apply ent_eqv_sym. apply (ment_eqv x x (ment y z) z); auto using ent_eqv_refl.
+  - (* z <= y <= x *)
+    destruct (R z y x Hz Hy Hx Lzy) as [R1 _]. destruct (R1 Lyx) as (_ & _ & _ & A4).
+    destruct (ment_le y x Hy Hx Lyx) as [_ E2].
+    pose proof (ent_le_trans z y x Lzy Lyx) as Lzx. destruct (ment_le z x Hz Hx Lzx) as [_ G2].
+    eapply ent_eqv_trans; [apply (ment_eqv (ment x y) x z z); auto using ent_eqv_refl|].
+    eapply ent_eqv_trans; [exact G2|]. apply ent_eqv_sym.
+    destruct (ment_le z y Hz Hy Lzy) as [_ F2].
+    eapply ent_eqv_trans; [apply (ment_eqv x x (ment y z) y); auto using ent_eqv_refl|exact E2].
+Qed.
+
+(* Merge IS associative on states whose entries are, element by element, pairwise comparable *)
+Theorem aw_merge_assoc_partial : forall a b c, aw_wf a -> aw_wf b -> aw_wf c ->
+  (forall e, comparable (ent e a) (ent e b) /\ comparable (ent e b) (ent e c) /\ comparable (ent e a) (ent e c)) ->
+  aw_eqv (aw_merge (aw_merge a b) c) (aw_merge a (aw_merge b c)).
+Proof.
+  intros a b c Ha Hb Hc Hcmp e.
+  rewrite (ent_merge (aw_merge a b) c) by auto using aw_merge_wf.
+  rewrite (ent_merge a (aw_merge b c)) by auto using aw_merge_wf.
+  rewrite (ent_merge a b), (ent_merge b c) by assumption.
+  destruct (Hcmp e) as (C1 & C2 & C3). apply ment_assoc_chain; auto using ent_wf.
+Qed.
